@@ -3,11 +3,18 @@
 Explicit-state search over histories of create / alias / gc-wrap / release /
 with / drop / collect / from_buffer / handle operations on three slots, stepped
 in lock-step with a counting model (destructor calls per wrapper, free calls per
-allocation, export flag of the from_buffer source, identity of handle targets).
+allocation, export state of the from_buffer sources, identity of handle targets).
+
+The operation alphabet is split into families (ALPHAS below); every family is
+explored exhaustively up to its depth for every combination of its axes
+(front end x collection mode x allocator).
 """
 import gc as _gc
+import os
+import sys
 
 from .. import hist
+from .. import pool
 from ..build import InfraError
 
 ID = "C21"
@@ -16,16 +23,79 @@ META = dict(
     engine="E2-hist", level="model_checking",
     technique="explicit-state breadth-first search over all operation histories up to a depth on the real objects, "
               "in lock-step with a counting reference model (exactly-once destructors/frees, keep-alive, export lock, handles)",
-    text="All histories of depth <= 4 (quick; thorough 5 with merging beyond the unmerged depth) over 16 operation kinds "
-         "on 3 slots, in two modes (no implicit GC / gc.collect() after every step): destructor and free counters are "
-         "checked after every step (never twice, never while the wrapper is still referenced, never after gc(p, None), "
-         "immediately at release/with-exit) and exactly at the end of every history after dropping everything and "
-         "collecting; includes reference cycles through the destructor closure and re-entrant destructors.",
-    note="CPython reference counting is deterministic, so 'when' an object dies is predicted by a reachability model; "
-         "new objects always go to the lowest free slot (slots are symmetric, this only removes renamings)")
+    text="All histories of depth <= 3/4 (quick; thorough 4/5 with merging beyond the unmerged depth) on 3 slots, for six "
+         "operation families: 'full'/'core' (allocator objects, ffi.new, from_buffer, handles, gc wrappers with plain / "
+         "cyclic / re-entrant destructors, links between wrappers), 'alloc' (allocators returning raw memory / an owning "
+         "char[] / with free=None / new_allocator() without arguments; union, var-sized struct, int[], int *, struct[2] "
+         "allocations; initializers that fail after alloc(); alloc() returning NULL / a non-cdata / a non-pointer / "
+         "raising; release, with and gc(x, None) offered on EVERY object incl. p[0]), 'dtor' (destructors that raise, "
+         "are ffi.callback cdata, bound methods of an object holding the wrapper, functools.partial; with-bodies that "
+         "raise), 'buf' (from_buffer in 4 forms over bytearray / array.array / mmap / a PEP 688 object that counts "
+         "acquisitions and releases and is referenced by nothing else; ffi.gc() over from_buffer objects; ffi.buffer() "
+         "views; source<->from_buffer cycles), 'handle' (handles whose target only the handle keeps alive, target<->"
+         "handle cycles, handles to None / a cdata, ffi.gc() over handles with a destructor that calls from_handle). "
+         "Every family runs on both front ends (cffi.FFI() and the _cffi_backend.FFI of an out-of-line module) and in "
+         "three collection modes (none / gc.collect() after every step / automatic GC with threshold 1) and has "
+         "gc.collect(0|1) steps.  Destructor, free and release-buffer counters are checked after every step (never "
+         "twice, never while the wrapper is still referenced, never after gc(p, None), immediately at release/"
+         "with-exit) and exactly at the end of every history after dropping everything and collecting.",
+    note="CPython reference counting is deterministic, so 'when' an object dies is predicted by a reachability model "
+         "(three-valued: certainly alive / possibly alive through a cycle or an ffi.buffer view / dead); new objects "
+         "always go to the lowest free slot (slots are symmetric, this only removes renamings).  Where the statement is "
+         "silent (release/with/gc(x, None) on objects that are not ffi.new/ffi.gc/from_buffer/allocator results) both "
+         "'rejected with an exception, nothing changes' and 'accepted' pass; ffi.gc(x, None) ACCEPTED on an allocator "
+         "object is read as 'free never runs afterwards'.  Expected duration: quick about 30 s, thorough 5-10 min.")
 
 NSLOT = 3
 SENT = 0x5A17
+
+CDEF = """struct c21s { int x; long long pad[3]; };
+union c21u { int x; long long y; char z[16]; };
+struct c21v { int n; int tail[]; };
+void *malloc(size_t); void free(void *);"""
+
+# shape -> (ctype, initializer, struct_like: p[0] is an owning alias)
+SHAPES = {
+    "s": ("struct c21s *", None, True),
+    "u": ("union c21u *", None, True),
+    "v": ("struct c21v *", [0, 3], True),
+    "a": ("int[3]", None, False),
+    "o": ("int[]", 3, False),
+    "i": ("int *", None, False),
+    "sa": ("struct c21s[2]", None, False),
+}
+
+DK_OLD = ("plain", "cycle", "re_release", "re_gcnone")
+DK_CYCLE = ("cycle", "re_release", "re_gcnone", "method")        # the destructor references the wrapper
+DK_LINKABLE = ("plain", "cycle", "re_release", "re_gcnone", "raises")   # plain functions: can carry an attribute
+FB_FORMS = ("", "int[]", "char *", "rw")
+FB_SRCS = ("ba", "arr", "mm", "own")
+SHARED_SRCS = ("ba", "arr", "mm")
+
+_OLD_TARGETS = ("news", "newa", "newp", "gc", "alias")
+ALPHAS = {
+    "core": dict(create=[("news",), ("newa",), ("newp",)], dk=("plain", "cycle", "re_release"), gc_on=_OLD_TARGETS,
+                 link=True, collect=[("collect",)]),
+    "full": dict(create=[("news",), ("newa",), ("newp",), ("fb",), ("handle", 0), ("handle", 1)], dk=DK_OLD,
+                 gc_on=_OLD_TARGETS, link=True, dup=True, resize=True, collect=[("collect",)]),
+    # gaps 2, 3, 7 of the audit: allocation kinds and failing allocations, every op on every object
+    "alloc": dict(create=[("news",), ("newa",), ("newp",)] + [("newx", "alloc", s) for s in ("u", "v", "o", "i", "sa")]
+                  + [("newx", "new", s) for s in ("u", "v", "o")],
+                  dk=("plain", "cycle"), gc_on=_OLD_TARGETS + ("newq",), wide=True,
+                  probes=[("bad", "init"), ("bad", "alloc")], collect=[("collect",), ("collect", 0)]),
+    # gap 5 (+3): destructor kinds, with-bodies that raise
+    "dtor": dict(create=[("news",), ("newa",), ("newp",)],
+                 dk=DK_OLD + ("raises", "cb", "method", "partial"), gc_on=_OLD_TARGETS, link=True, wide=True,
+                 with_raise=True, collect=[("collect",), ("collect", 0)]),
+    # gap 4: from_buffer forms and sources, gc over them, buffer views, cycles through the source
+    "buf": dict(create=[("fb",)] + [("fbx", f, s) for s in FB_SRCS for f in FB_FORMS if (f, s) != ("", "ba")],
+                dk=("plain", "cycle", "cb"), gc_on=("fb", "gc"), wide=True, with_raise=True, dup=True, resize=True,
+                buf=True, tie=True, collect=[("collect",), ("collect", 0)]),
+    # gap 6: handle kinds, gc over handles
+    "handle": dict(create=[("handle", k) for k in (0, 1, "own", "self", "none", "cd")] + [("newp",)],
+                   dk=("plain", "cycle", "fromh"), gc_on=("handle", "gc", "newp"), wide=True, dup=True,
+                   collect=[("collect",), ("collect", 0), ("collect", 1)]),
+}
 
 
 class Rec(object):
@@ -33,48 +103,116 @@ class Rec(object):
 
     def __init__(self, oid, kind, **kw):
         self.oid = oid
-        self.kind = kind                # news / newa / newp / alias / gc / fb / handle
-        self.target = kw.get("target")  # gc: wrapped object id; alias: owner id
-        self.dkind = kw.get("dkind")    # gc: plain / cycle / re_release / re_gcnone
-        self.cancelled = False          # gc(p, None) applied
-        self.ran = False                # destructor (gc) or free (news/newa) already ran
+        self.kind = kind                # news / newa / newp / newq / alias / gc / fb / handle / buf
+        self.target = kw.get("target")  # gc: wrapped object id; alias: owner id; buf: viewed object id
+        self.dkind = kw.get("dkind")    # gc: destructor kind
+        self.cancelled = False          # gc(p, None) applied (and accepted) before the destructor / free ran
+        self.ran = False                # destructor (gc) or free (allocator objects) already ran
         self.released = False
-        self.selfcycle = kw.get("dkind") in ("cycle", "re_release", "re_gcnone")
         self.k = kw.get("k")            # handle: which python object
         self.link = None                # gc: object id referenced from the destructor's closure
+        self.shape = kw.get("shape")    # allocations: key of SHAPES
+        self.cls = kw.get("cls")        # allocations: A (owning ptr to a CDataGCP struct), B (CDataGCP), D (plain)
+        self.has_free = kw.get("has_free", False)
+        self.maybe = False              # an op whose effect the statement does not define was accepted: counters free
+        self.src = kw.get("src")        # fb: source kind
+        self.form = kw.get("form")      # fb: from_buffer form
+        self.tied = False               # fb: the source references the fb object (a cycle)
+
+
+class _Expected(Exception):
+    """Raised on purpose by the 'raises' destructor."""
+
+
+class _Marker(Exception):
+    """Raised on purpose by a with-body."""
 
 
 class Sys(object):
     def __init__(self, cfg):
-        import cffi
-        self.collect_every = cfg["collect_every"]
+        import weakref
+        self.cfg = cfg
+        self.mode = cfg.get("mode") or ("every" if cfg.get("collect_every") else "none")
+        self.collect_every = self.mode == "every"
         self.alpha = cfg.get("alpha", "full")
-        ffi = self.ffi = _FFI[0]
+        self.A = ALPHAS[self.alpha]
+        self.front = cfg.get("front", "inline")
+        ffi = self.ffi = _FFIS[self.front]
+        self.ffi2 = _FFIS["ool" if self.front == "inline" else "inline"]
+        self.allocator = cfg.get("allocator", "raw")
+        self.depth = cfg.get("depth")
+        self.part = cfg.get("part")
+        self.nops = 0
         self.slots = [None] * NSLOT          # implementation objects
         self.mslots = [None] * NSLOT         # model: object ids
         self.recs = {}
         self.nid = 0
         self.dcalls = {}                     # gc wrapper id -> list of args seen
         self.frees = {}                      # allocation id -> count
+        self.nallocs = {}                    # allocation id -> number of alloc() calls
         self.addr2alloc = {}
-        self.live_allocs = {}
+        self.backing = {}                    # allocation id -> weakref to the owning char[] returned by alloc()
+        self.pending = None                  # allocation id of the allocator call in progress
+        self.collected = set()               # ids that were unreachable at a full collection
+        self.fblog = {}                      # fb id -> ["get" | "rel", ...] of its private PEP 688 source
+        self.fbwr = {}                       # fb id -> weakref to that source
+        self.hwr = {}                        # handle id -> weakref to its private target
+        self.hid = {}                        # handle id -> id() of its private target
+        self.shared = {}                     # shared from_buffer sources, created on first use
+        self.outcome = None                  # classification of the last operation (evidence counters)
+        self._cells = weakref.WeakValueDictionary()
+        self._weakref = weakref
         sysref = self
+        iffi = _FFIS["inline"]               # harness-internal casts
 
-        def my_alloc(size):
+        def note_alloc(p, backing):
+            oid = sysref.pending
+            sysref.addr2alloc[int(iffi.cast("intptr_t", p))] = oid
+            sysref.nallocs[oid] = sysref.nallocs.get(oid, 0) + 1
+            if backing:
+                sysref.backing[oid] = weakref.ref(p)
+
+        def alloc_raw(size):
             p = _RAW.malloc(size)
+            note_alloc(p, False)
             return p
 
-        def my_free(p):
-            a = int(ffi.cast("intptr_t", p))
-            oid = sysref.addr2alloc.get(a)
+        def alloc_own(size):
+            p = iffi.new("char[]", size)        # the idiom of the documentation: an owning cdata
+            note_alloc(p, True)
+            return p
+
+        def free_raw(p):
+            oid = sysref.addr2alloc.get(int(iffi.cast("intptr_t", p)))
             sysref.frees[oid] = sysref.frees.get(oid, 0) + 1
             _RAW.free(p)
-        self.alloc = ffi.new_allocator(my_alloc, my_free, should_clear_after_alloc=True)
+
+        def free_own(p):
+            oid = sysref.addr2alloc.get(int(iffi.cast("intptr_t", p)))
+            sysref.frees[oid] = sysref.frees.get(oid, 0) + 1
+        if self.allocator == "raw":
+            self.alloc = ffi.new_allocator(alloc_raw, free_raw, should_clear_after_alloc=True)
+        elif self.allocator == "owning":
+            self.alloc = ffi.new_allocator(alloc_own, free_own, should_clear_after_alloc=False)
+        elif self.allocator == "nofree":
+            self.alloc = ffi.new_allocator(alloc_own, None)
+        elif self.allocator == "default":
+            self.alloc = ffi.new_allocator(should_clear_after_alloc=False)
+        else:
+            raise InfraError("unknown allocator %r" % (self.allocator,))
+        self.has_free = self.allocator in ("raw", "owning")
         self.ba = _BA(b"0123456789ab")
+        self.shared["ba"] = self.ba
         self.pyobjs = [_Obj("o0"), _Obj("o1")]
+        self.hcd = None
         self.err = None
+        if self.mode == "auto":
+            _gc.set_threshold(1, 1, 1)          # a young collection at (almost) every container allocation
+            _gc.enable()
+        else:
+            _gc.disable()
         for op in cfg.get("prebuilt", ()):       # start from a non-initial state
-            if self._apply(tuple(op)) is not None:
+            if self._apply(_tuplify(op)) is not None:
                 raise InfraError("prebuilt state failed")
 
     # ---- model helpers ----------------------------------------------------
@@ -88,86 +226,160 @@ class Sys(object):
                 return i
         return None
 
-    def _reachable(self):
+    def _reach(self, lax=False, roots=None):
+        """Objects reachable from the slots (or `roots`).  Strict: only the references the property promises;
+        lax: also the references that exist but that the statement does not promise (ffi.buffer views)."""
         seen = set()
-        stack = [o for o in self.mslots if o is not None]
+        stack = list(roots) if roots is not None else [o for o in self.mslots if o is not None]
         while stack:
             o = stack.pop()
             if o in seen:
                 continue
             seen.add(o)
             r = self.recs[o]
-            if r.kind == "gc" and r.link is not None and not (r.released or r.cancelled or r.ran):
-                stack.append(r.link)      # destructor closure -> linked object (while the destructor is held)
-            if r.kind == "gc" and r.released:
-                continue          # release() finalises the wrapper: it drops its reference to the target
-            if r.kind in ("gc", "alias") and r.target is not None:
+            if r.kind == "gc":
+                if r.link is not None and not (r.released or r.cancelled or r.ran):
+                    stack.append(r.link)      # destructor closure -> linked object (while the destructor is held)
+                if not r.released and r.target is not None:
+                    stack.append(r.target)    # release() finalises the wrapper: it drops its reference to the target
+            elif r.kind == "alias":
+                stack.append(r.target)
+            elif r.kind == "buf" and lax:
                 stack.append(r.target)
         return seen
 
+    def _reachable(self):
+        return self._reach()
+
+    def _cyclic(self, r):
+        """Is the object part of a reference cycle (so that only a collection can end its life)?"""
+        if r.kind == "gc":
+            return r.dkind in DK_CYCLE and not (r.released or r.cancelled or r.ran)
+        if r.kind == "fb":
+            return r.tied and not r.released
+        if r.kind == "handle":
+            return r.k == "self"
+        return False
+
+    def _status(self):
+        """(live, maybe, n): certainly alive / possibly alive (held by a cycle that no full collection has seen
+        yet, or by a reference that the statement does not promise).  Everything else is dead."""
+        live = self._reach()
+        lax = self._reach(lax=True)
+        limbo = [o for o, r in self.recs.items() if o not in lax and o not in self.collected and self._cyclic(r)]
+        maybe = lax - live
+        if limbo:
+            maybe |= self._reach(lax=True, roots=limbo)
+        return live, maybe, len(limbo)
+
+    def _mark_collected(self):
+        self.collected |= set(self.recs) - self._reach(lax=True)
+
+    def _class(self, r):
+        if r.kind in ("news", "newa", "newp", "newq"):
+            return r.cls
+        if r.kind == "alias":
+            return "C" if self.recs[r.target].cls == "A" else "E"
+        return {"gc": "F", "fb": "G", "handle": "H", "buf": "I"}[r.kind]
+
+    def _bottom(self, oid):
+        """The object at the bottom of a chain of gc wrappers."""
+        r = self.recs[oid]
+        n = 0
+        while r.kind == "gc" and n < 50:
+            r = self.recs[r.target]
+            n += 1
+        return r
+
     def enabled(self):
+        A = self.A
+        if self.depth is not None and self.nops >= self.depth:
+            return []
         ops = []
         fs = self._free_slot()
         kinds = [None if o is None else self.recs[o].kind for o in self.mslots]
         if fs is not None:
-            ops += [("news",), ("newa",), ("newp",)]
-            if self.alpha == "full":
-                ops += [("fb",), ("handle", 0), ("handle", 1)]
+            ops += A["create"]
         for i in range(NSLOT):
             k = kinds[i]
             if k is None:
                 continue
             r = self.recs[self.mslots[i]]
-            if fs is not None and k in ("news", "newa", "newp", "gc", "alias"):
-                for dk in ("plain", "cycle", "re_release", "re_gcnone"):
-                    if self.alpha != "full" and dk == "re_gcnone":
+            if fs is not None and k in A["gc_on"]:
+                bottom = self._bottom(r.oid)
+                for dk in A["dk"]:
+                    if dk == "cb" and bottom.kind == "alias":
+                        continue          # a struct cdata cannot be passed to a 'void(void *)' function
+                    if dk == "fromh" and bottom.kind != "handle":
+                        continue
+                    if bottom.kind == "handle" and dk not in ("plain", "cycle", "fromh"):
                         continue
                     ops.append(("gc", i, dk))
             if fs is not None and k in ("news", "newp") and not r.released:
                 ops.append(("alias", i))
-            if k == "gc":
+            if k == "gc" or A.get("wide"):
                 ops.append(("gcnone", i))
-                if r.link is None and not (r.released or r.cancelled or r.ran):
+            if k == "gc" and A.get("link"):
+                if r.link is None and r.dkind in DK_LINKABLE and not (r.released or r.cancelled or r.ran):
                     for j in range(NSLOT):
                         if j != i and kinds[j] == "gc":
                             ops.append(("link", i, j))
-            if k in ("news", "newa", "newp", "gc", "fb"):
+            if k in ("news", "newa", "newp", "gc", "fb") or A.get("wide"):
                 ops.append(("release", i))
                 ops.append(("with", i))
+                if A.get("with_raise"):
+                    ops.append(("with_raise", i))
             if k == "handle":
                 ops.append(("fromh", i))
+            if k == "fb" and A.get("tie") and r.src == "own" and not r.released and not r.tied:
+                ops.append(("tie", i))
+            if fs is not None and A.get("buf") and k in ("fb", "gc", "news", "newa", "newp", "newq"):
+                if self._bottom(r.oid).kind != "alias":
+                    ops.append(("buf", i))
             ops.append(("drop", i))
-            if fs is not None and self.alpha == "full":
+            if fs is not None and A.get("dup"):
                 ops.append(("dup", i))
-        ops.append(("collect",))
-        if self.alpha == "full":
+        ops += A["collect"]
+        if A.get("resize"):
             ops.append(("resize",))
+        ops += A.get("probes", [])
+        if self.nops == 0 and self.part:
+            ops = ops[self.part[0]::self.part[1]]
         return ops
 
     # ---- stepping ---------------------------------------------------------
     def apply(self, op):
+        self.outcome = None
         try:
             info = self._apply(op)
         except InfraError:
             raise
         except Exception as e:
             import traceback
-            return {"kind": "exception", "op": op, "error": "%s: %s" % (type(e).__name__, e),
+            info = {"kind": "exception", "op": op, "error": "%s: %s" % (type(e).__name__, e),
                     "tb": traceback.format_exc()[-600:]}
-        if info:
-            return info
-        if self.collect_every:
-            _gc.collect()
-        return self._check(final=False)
+        self.nops += 1
+        if info is None:
+            if self.collect_every:
+                _gc.collect()
+                self._mark_collected()
+            info = self._check(final=False)
+        if info is not None:
+            info["cfg"] = self._plain_cfg()
+        return info
 
-    def _make_destructor(self, oid, dk, cell):
+    def _plain_cfg(self):
+        return {k: v for k, v in self.cfg.items() if k not in ("part", "depth", "plan")}
+
+    def _make_destructor(self, oid, dk, cell, bottom):
+        """Returns (destructor, holder)."""
         sysref = self
         ffi = self.ffi
 
         def plain(x):
             sysref.dcalls.setdefault(oid, []).append(1)
         if dk == "plain":
-            return plain
+            return plain, None
 
         def cyc(x):
             sysref.dcalls.setdefault(oid, []).append(1)
@@ -182,33 +394,146 @@ class Sys(object):
             sysref.dcalls.setdefault(oid, []).append(1)
             if cell[0] is not None:
                 ffi.gc(cell[0], None)
-        return {"cycle": cyc, "re_release": re_release, "re_gcnone": re_gcnone}[dk]
+
+        def raises(x):
+            sysref.dcalls.setdefault(oid, []).append(1)
+            raise _Expected(oid)         # reported through sys.unraisablehook, must not propagate anywhere
+
+        def cbfunc(p):
+            sysref.dcalls.setdefault(oid, []).append(1)
+        if dk == "cb":
+            return ffi.callback("void(void *)", cbfunc), None      # a cdata function as the destructor
+        if dk == "method":
+            m = _Method(sysref, oid)         # the wrapper is stored on m: a cycle through __self__
+            return m.destroy, m
+        if dk == "partial":
+            import functools
+            return functools.partial(_count_call, sysref, oid), None
+        if dk == "fromh":
+            want_id = self.hid.get(bottom.oid)
+            want = None if want_id is not None else self._hexpect(bottom)
+
+            def fromh(x):
+                sysref.dcalls.setdefault(oid, []).append(1)
+                try:
+                    got = ffi.from_handle(x)      # the destructor must receive a handle that is still valid
+                except Exception as e:
+                    sysref.err = {"kind": "from_handle-failed-in-destructor", "error": repr(e)}
+                    return
+                if (id(got) != want_id) if want_id is not None else (got is not want):
+                    sysref.err = {"kind": "from_handle-wrong-object-in-destructor", "hkind": str(bottom.k)}
+            return fromh, None
+        return {"cycle": cyc, "re_release": re_release, "re_gcnone": re_gcnone, "raises": raises}[dk], None
+
+    def _hexpect(self, r):
+        if r.k in (0, 1):
+            return self.pyobjs[r.k]
+        if r.k == "none":
+            return None
+        if r.k == "cd":
+            return self.hcd
+        return self.hwr[r.oid]()
+
+    def _create(self, via, shape):
+        ffi = self.ffi
+        ctype, init, struct_like = SHAPES[shape]
+        oid = self._new_id()
+        if via == "alloc":
+            self.pending = oid
+            try:
+                p = self.alloc(ctype) if init is None else self.alloc(ctype, init)
+            finally:
+                self.pending = None
+            kind = "news" if struct_like else "newa"
+            if self.allocator == "default":
+                cls, has_free = "D", False
+            else:
+                cls, has_free = ("A" if struct_like else "B"), self.has_free
+        else:
+            p = ffi.new(ctype) if init is None else ffi.new(ctype, init)
+            kind = "newp" if struct_like else "newq"
+            cls, has_free = "D", False
+        _fill(p, shape)
+        self.recs[oid] = Rec(oid, kind, shape=shape, cls=cls, has_free=has_free)
+        return oid, p
+
+    def _shared(self, src):
+        s = self.shared.get(src)
+        if s is None:
+            if src == "arr":
+                import array
+                s = array.array("i", [SENT, 1, 2])
+            elif src == "mm":
+                import mmap
+                s = mmap.mmap(-1, 4096)
+            else:
+                raise InfraError("unknown source %r" % (src,))
+            self.shared[src] = s
+        return s
+
+    def _probe(self, src):
+        """True if the shared source can be resized now (= it is not export-locked)."""
+        s = self.shared[src]
+        try:
+            if src == "mm":
+                s.resize(4096)
+            else:
+                s.append(1)
+                s.pop()
+            return True
+        except BufferError:
+            return False
 
     def _apply(self, op):
         ffi = self.ffi
         k = op[0]
-        if k in ("news", "newa", "newp", "fb", "handle"):
+        if k in ("news", "newa", "newp", "newx"):
+            i = self._free_slot()
+            if k == "newx":
+                oid, p = self._create(op[1], op[2])
+            else:
+                oid, p = self._create("new" if k == "newp" else "alloc", "a" if k == "newa" else "s")
+            self.slots[i] = p
+            self.mslots[i] = oid
+            return None
+        if k in ("fb", "fbx", "handle"):
             i = self._free_slot()
             oid = self._new_id()
-            if k == "news":
-                p = self.alloc("struct c21s *")
-                self.addr2alloc[int(ffi.cast("intptr_t", p))] = oid
-                p.x = SENT
-                self.recs[oid] = Rec(oid, "news")
-            elif k == "newa":
-                p = self.alloc("int[3]")
-                self.addr2alloc[int(ffi.cast("intptr_t", p))] = oid
-                self.recs[oid] = Rec(oid, "newa")
-            elif k == "newp":
-                p = ffi.new("struct c21s *")
-                p.x = SENT
-                self.recs[oid] = Rec(oid, "newp")
-            elif k == "fb":
-                p = ffi.from_buffer(self.ba)
-                self.recs[oid] = Rec(oid, "fb")
+            if k in ("fb", "fbx"):
+                form, src = (op[1], op[2]) if k == "fbx" else ("", "ba")
+                if src == "own":
+                    log = self.fblog[oid] = []
+                    s = _make_src(log)           # referenced by nothing but the from_buffer object
+                    self.fbwr[oid] = self._weakref.ref(s)
+                else:
+                    s = self._shared(src)
+                if form == "":
+                    p = ffi.from_buffer(s)
+                elif form == "rw":
+                    p = ffi.from_buffer(s, require_writable=True)
+                else:
+                    p = ffi.from_buffer(form, s)
+                del s
+                self.recs[oid] = Rec(oid, "fb", src=src, form=form)
             else:
-                p = ffi.new_handle(self.pyobjs[op[1]])
-                self.recs[oid] = Rec(oid, "handle", k=op[1])
+                hk = op[1]
+                if hk in (0, 1):
+                    obj = self.pyobjs[hk]
+                elif hk == "none":
+                    obj = None
+                elif hk == "cd":
+                    if self.hcd is None:
+                        self.hcd = ffi.new("int *", 7)
+                    obj = self.hcd
+                else:
+                    obj = _Obj(hk)               # "own" / "self": only the handle keeps it alive
+                    self.hwr[oid] = self._weakref.ref(obj)
+                    self.hid[oid] = id(obj)
+                p = ffi.new_handle(obj)
+                if hk == "self":
+                    obj.h = p                    # object <-> handle cycle
+                del obj
+                self.recs[oid] = Rec(oid, "handle", k=hk)
             self.slots[i] = p
             self.mslots[i] = oid
             return None
@@ -217,19 +542,19 @@ class Sys(object):
             j = self._free_slot()
             oid = self._new_id()
             cell = [None]
-            d = self._make_destructor(oid, dk, cell)
+            d, holder = self._make_destructor(oid, dk, cell, self._bottom(self.mslots[i]))
             w = ffi.gc(self.slots[i], d)
-            if dk != "plain":
+            if dk in ("cycle", "re_release", "re_gcnone"):
                 cell[0] = w
+            if holder is not None:
+                holder.w = w
             self.recs[oid] = Rec(oid, "gc", target=self.mslots[i], dkind=dk)
-            d.link_cell = cell2 = _Cell()     # a strong reference held ONLY by the destructor function
-            if not hasattr(self, "_cells"):
-                import weakref
-                self._cells = weakref.WeakValueDictionary()
-            self._cells[oid] = cell2
+            if dk in DK_LINKABLE:
+                d.link_cell = cell2 = _Cell()     # a strong reference held ONLY by the destructor function
+                self._cells[oid] = cell2
             self.slots[j] = w
             self.mslots[j] = oid
-            del w
+            del w, d, holder
             return None
         if k == "alias":
             i = op[1]
@@ -237,6 +562,14 @@ class Sys(object):
             oid = self._new_id()
             self.slots[j] = self.slots[i][0]
             self.recs[oid] = Rec(oid, "alias", target=self.mslots[i])
+            self.mslots[j] = oid
+            return None
+        if k == "buf":
+            i = op[1]
+            j = self._free_slot()
+            oid = self._new_id()
+            self.slots[j] = ffi.buffer(self.slots[i])
+            self.recs[oid] = Rec(oid, "buf", target=self.mslots[i])
             self.mslots[j] = oid
             return None
         if k == "dup":
@@ -251,45 +584,96 @@ class Sys(object):
             self._cells[oi].ref = self.slots[j]    # destructor of i now keeps the object in slot j alive
             self.recs[oi].link = self.mslots[j]
             return None
+        if k == "tie":
+            r = self.recs[self.mslots[op[1]]]
+            s = self.fbwr[r.oid]()
+            if s is None:
+                return {"kind": "source-died-while-referenced", "obj": r.oid, "form": r.form}
+            s.ref = self.slots[op[1]]              # source -> from_buffer object -> view -> source
+            del s
+            r.tied = True
+            return None
         if k == "gcnone":
             r = self.recs[self.mslots[op[1]]]
-            res = ffi.gc(self.slots[op[1]], None)
+            cls = self._class(r)
+            try:
+                res = ffi.gc(self.slots[op[1]], None)
+            except Exception:
+                if cls == "F":
+                    raise
+                self.outcome = "gcnone_%s_rejected" % cls
+                return None
             if res is not None:
                 return {"kind": "gc-none-returned-something", "op": op}
-            if not r.ran:
-                r.cancelled = True
-            r.selfcycle = False if not r.ran and False else r.selfcycle
+            self.outcome = "gcnone_%s_accepted" % cls
+            if cls == "F":
+                if not r.ran:
+                    r.cancelled = True
+            elif cls in ("B", "C"):
+                # The statement says both "free runs exactly once per allocation" and "never after ffi.gc(p, None)";
+                # an ACCEPTED gc(x, None) on an allocator object is read as the latter.
+                root = r if cls == "B" else self.recs[r.target]
+                if not root.ran:
+                    root.cancelled = True
+            elif cls == "A":
+                r.maybe = True          # not defined by the statement: no expectation on the free counter any more
             return None
-        if k in ("release", "with"):
+        if k in ("release", "with", "with_raise"):
             i = op[1]
             r = self.recs[self.mslots[i]]
-            if k == "release":
-                ffi.release(self.slots[i])
-                ffi.release(self.slots[i])          # idempotent
-            else:
-                with self.slots[i]:
-                    pass
-            self._model_release(r)
+            x = self.slots[i]
+            cls = self._class(r)
+            must = cls in ("A", "B", "D", "F", "G")      # results of ffi.new / allocator / ffi.gc / from_buffer
+            entered = False
+            try:
+                if k == "release":
+                    ffi.release(x)
+                    entered = True
+                    ffi.release(x)          # idempotent
+                elif k == "with":
+                    with x:
+                        entered = True
+                else:
+                    marker = _Marker()
+                    try:
+                        with x:
+                            entered = True
+                            raise marker
+                    except _Marker as e:
+                        if e is not marker:
+                            return {"kind": "with-body-exception-replaced", "op": op, "dkind": r.dkind}
+                    else:
+                        if entered:
+                            return {"kind": "with-body-exception-swallowed", "op": op, "dkind": r.dkind}
+            except Exception:
+                if must or entered:
+                    raise
+                self.outcome = "%s_%s_rejected" % (k, cls)       # nothing happened
+                return None
+            self.outcome = "%s_%s_accepted" % (k, cls)
+            self._model_release(r, cls)
             return None
         if k == "drop":
             self.slots[op[1]] = None
             self.mslots[op[1]] = None
             return None
         if k == "collect":
-            _gc.collect()
-            self._model_collect()
+            if len(op) == 1:
+                _gc.collect()
+                self._mark_collected()
+            else:
+                _gc.collect(op[1])       # a young collection: may finalise some cycles, must not break anything
             return None
         if k == "resize":
-            exported = any(self.recs[o].kind == "fb" and not self.recs[o].released for o in self._reachable())
-            try:
-                self.ba.append(1)
-                grew = True
-            except BufferError:
-                grew = False
-            if grew:
-                self.ba.pop()
-            if grew == exported:
-                return {"kind": "export-lock", "op": op, "exported_in_model": exported, "resize_succeeded": grew}
+            live, maybe, _ = self._status()
+            for src in SHARED_SRCS:
+                if src not in self.shared:
+                    continue
+                st = self._export_state(src, live, maybe)
+                grew = self._probe(src)
+                if st is not None and grew == st:
+                    return {"kind": "export-lock", "op": op, "src": src, "exported_in_model": st,
+                            "resize_succeeded": grew}
             return None
         if k == "fromh":
             i = op[1]
@@ -298,44 +682,115 @@ class Sys(object):
             o1 = ffi.from_handle(h)
             o2 = ffi.from_handle(ffi.cast("void *", h))
             o3 = ffi.from_handle(ffi.cast("char *", ffi.cast("intptr_t", h)))
-            want = self.pyobjs[r.k]
-            if not (o1 is want and o2 is want and o3 is want):
-                return {"kind": "from_handle-wrong-object", "op": op}
+            o4 = self.ffi2.from_handle(h)         # through the other front end
+            want = self._hexpect(r)
+            if want is None and r.k != "none":
+                return {"kind": "handle-target-died-while-handle-alive", "op": op, "hkind": str(r.k)}
+            if not (o1 is want and o2 is want and o3 is want and o4 is want):
+                return {"kind": "from_handle-wrong-object", "op": op, "hkind": str(r.k)}
             return None
+        if k == "bad":
+            return self._bad_init() if op[1] == "init" else self._bad_alloc()
         raise InfraError("unknown op %r" % (op,))
 
-    def _model_release(self, r):
-        if r.kind == "gc":
+    def _bad_init(self):
+        """Initializers that fail AFTER alloc() succeeded: the allocation must be freed exactly once, at once."""
+        cases = [("int[3]", [1, 2, 3, 4]), ("struct c21s *", {"nosuch": 1}),
+                 ("struct c21v *", [1, [1, 2, "x"]]), ("union c21u *", {"nosuch": 1})]
+        for ct, init in cases:
+            oid = self._new_id()
+            self.pending = oid
+            try:
+                self.alloc(ct, init)
+            except Exception:
+                pass
+            else:
+                raise InfraError("assumption broken: initializer %r accepted for %s" % (init, ct))
+            finally:
+                self.pending = None
+            if self.allocator == "default":
+                continue
+            na, nf = self.nallocs.get(oid, 0), self.frees.get(oid, 0)
+            want = na if self.has_free else 0
+            if nf != want:
+                return {"kind": "free-count-after-failed-initializer", "okind": ct, "allocs": na, "frees": nf}
+        return None
+
+    def _bad_alloc(self):
+        """alloc() that does not deliver memory: an exception, and free() is never called."""
+        ffi = self.ffi
+        iffi = _FFIS["inline"]
+        nfree = []
+
+        def fr(p):
+            nfree.append(1)
+
+        def a_null(size):
+            return iffi.NULL
+
+        def a_raise(size):
+            raise ZeroDivisionError
+
+        def a_notcdata(size):
+            return 5
+
+        def a_notptr(size):
+            return iffi.cast("int", 5)
+        for name, a in (("null", a_null), ("raise", a_raise), ("notcdata", a_notcdata), ("notptr", a_notptr)):
+            al = ffi.new_allocator(a, fr)
+            for ct in ("int[3]", "struct c21s *"):
+                try:
+                    al(ct)
+                except Exception:
+                    pass
+                else:
+                    raise InfraError("assumption broken: allocation with alloc() = %s succeeded" % name)
+                if nfree:
+                    return {"kind": "free-called-without-allocation", "okind": ct, "allocator": name}
+        return None
+
+    def _model_release(self, r, cls):
+        if cls == "F":
             if not r.ran and not r.cancelled:
                 r.ran = True
-                r.expect_now = True
-            r.selfcycle = False          # finalize cleared the destructor reference
-        elif r.kind in ("news", "newa"):
-            if not r.ran:
-                r.ran = True
-        elif r.kind == "fb":
             r.released = True
-        r.released = True if r.kind != "newp" else r.released
+        elif cls in ("A", "B", "C"):
+            root = r if cls != "C" else self.recs[r.target]
+            if root.has_free and not root.ran and not root.cancelled and not root.maybe:
+                root.ran = True
+            root.released = True
+        elif cls == "G":
+            r.released = True
+        # D: "no effect on CPython"; E, H, I (if accepted at all): no effect
 
-    def _model_collect(self):
-        pass
+    def _export_state(self, src, live, maybe):
+        """True: certainly export-locked, False: certainly not, None: the model cannot tell."""
+        unknown = False
+        for o, r in self.recs.items():
+            if r.kind == "fb" and r.src == src and not r.released:
+                if o in live:
+                    return True
+                if o in maybe:
+                    unknown = True
+        return None if unknown else False
 
     # ---- checking ---------------------------------------------------------
-    def _dead(self):
-        """Objects the model considers dead right now (unreachable, ignoring self-cycles that are
-        only collected by gc.collect(): those are handled by the caller)."""
-        return set(self.recs) - self._reachable()
-
     def _check(self, final):
-        reach = self._reachable()
+        if self.err is not None:
+            return dict(self.err)
+        if _UNRAISABLE:
+            msgs = list(_UNRAISABLE)
+            del _UNRAISABLE[:]
+            return {"kind": "unexpected-unraisable-error", "errors": msgs[:3]}
+        live, maybe, _ = self._status()
         for oid, r in self.recs.items():
-            n = len(self.dcalls.get(oid, ())) if r.kind == "gc" else self.frees.get(oid, 0)
             if r.kind == "gc":
+                n = len(self.dcalls.get(oid, ()))
                 if n > 1:
                     return {"kind": "destructor-ran-twice", "obj": oid, "dkind": r.dkind}
                 if r.cancelled and n > 0 and not r.ran:
                     return {"kind": "destructor-ran-after-gc-none", "obj": oid, "dkind": r.dkind}
-                if oid in reach and not r.released and n > 0:
+                if oid in live and not r.released and n > 0:
                     return {"kind": "destructor-ran-while-referenced", "obj": oid, "dkind": r.dkind}
                 if r.released and not r.cancelled and n != 1:
                     return {"kind": "destructor-not-run-at-release", "obj": oid, "dkind": r.dkind, "calls": n}
@@ -343,17 +798,41 @@ class Sys(object):
                     return {"kind": "destructor-never-ran", "obj": oid, "dkind": r.dkind}
                 if final and r.cancelled and n != 0:
                     return {"kind": "destructor-ran-after-gc-none", "obj": oid, "dkind": r.dkind}
-            elif r.kind in ("news", "newa"):
+            elif r.cls in ("A", "B"):
+                n = self.frees.get(oid, 0)
+                okind = r.kind if r.shape in ("s", "a") else r.kind + "-" + r.shape
                 if n > 1:
-                    return {"kind": "free-ran-twice", "obj": oid, "okind": r.kind}
-                owner_or_alias_alive = oid in reach
-                if owner_or_alias_alive and not r.released and n > 0:
-                    return {"kind": "freed-while-referenced", "obj": oid, "okind": r.kind}
-                if r.released and n != 1:
-                    return {"kind": "free-not-run-at-release", "obj": oid, "okind": r.kind, "calls": n}
-                if final and n != 1:
-                    return {"kind": "allocation-never-freed", "obj": oid, "okind": r.kind}
-        # memory of structs reachable through p or p[0] still holds its sentinel
+                    return {"kind": "free-ran-twice", "obj": oid, "okind": okind}
+                if r.maybe:
+                    continue
+                if not r.has_free:
+                    pass
+                elif r.cancelled and n > 0:
+                    return {"kind": "free-ran-after-gc-none", "obj": oid, "okind": okind}
+                elif oid in live and not r.released and n > 0:
+                    return {"kind": "freed-while-referenced", "obj": oid, "okind": okind}
+                elif r.released and n != (1 if r.ran else 0):
+                    return {"kind": "free-not-run-at-release", "obj": oid, "okind": okind, "calls": n}
+                elif final and n != (0 if r.cancelled else 1):
+                    return {"kind": "allocation-never-freed", "obj": oid, "okind": okind}
+                wr = self.backing.get(oid)
+                if wr is not None and oid in live and not r.released and wr() is None:
+                    return {"kind": "backing-store-died-while-referenced", "obj": oid, "okind": okind}
+            elif r.kind == "fb" and r.src == "own":
+                log = self.fblog[oid]
+                rels = log.count("rel")
+                if rels > 1:
+                    return {"kind": "buffer-released-twice", "obj": oid, "form": r.form}
+                if oid in live and not r.released:
+                    if rels:
+                        return {"kind": "export-released-while-referenced", "obj": oid, "form": r.form}
+                    if self.fbwr[oid]() is None:
+                        return {"kind": "source-died-while-referenced", "obj": oid, "form": r.form}
+                if r.released and rels != 1:
+                    return {"kind": "export-not-released-at-release", "obj": oid, "form": r.form}
+                if final and rels != 1:
+                    return {"kind": "export-never-released", "obj": oid, "form": r.form}
+        # memory of allocations reachable through p or p[0] still holds its sentinels
         seen_handles = {}
         for i in range(NSLOT):
             oid = self.mslots[i]
@@ -361,61 +840,149 @@ class Sys(object):
                 continue
             r = self.recs[oid]
             x = self.slots[i]
-            root = self.recs[self._root_of(oid)]
-            if r.kind in ("news", "newp") and not r.released:
-                if x.x != SENT or x[0].x != SENT:
-                    return {"kind": "struct-memory-lost", "obj": oid, "via": "owner"}
-            if r.kind == "alias" and not root.released:
-                if x.x != SENT:
-                    return {"kind": "struct-memory-lost", "obj": oid, "via": "alias"}
+            if r.kind in ("news", "newa", "newp", "newq") and not r.released:
+                if not _intact(x, r.shape, False):
+                    return {"kind": "struct-memory-lost", "obj": oid, "via": "owner", "okind": r.kind + "-" + r.shape}
+            if r.kind == "alias":
+                root = self.recs[r.target]
+                if not root.released and not _intact(x, root.shape, True):
+                    return {"kind": "struct-memory-lost", "obj": oid, "via": "alias",
+                            "okind": root.kind + "-" + root.shape}
             if r.kind == "handle":
                 a = int(self.ffi.cast("intptr_t", x))
                 if a in seen_handles and seen_handles[a] != oid:
                     return {"kind": "two-live-handles-share-an-address", "obj": oid}
                 seen_handles[a] = oid
-                if self.ffi.from_handle(x) is not self.pyobjs[r.k]:
-                    return {"kind": "from_handle-wrong-object", "obj": oid}
+                want = self._hexpect(r)
+                if want is None and r.k != "none":
+                    return {"kind": "handle-target-died-while-handle-alive", "obj": oid, "hkind": str(r.k)}
+                if self.ffi.from_handle(x) is not want:
+                    return {"kind": "from_handle-wrong-object", "obj": oid, "hkind": str(r.k)}
         return None
-
-    def _root_of(self, oid):
-        r = self.recs[oid]
-        n = 0
-        while r.kind in ("alias", "gc") and r.target is not None and n < 50:
-            r = self.recs[r.target]
-            n += 1
-        return r.oid
 
     def key(self):
         # model state: slot contents as canonical descriptors (ids renumbered by first occurrence)
         ren = {}
+        order = []
 
-        def desc(oid):
-            if oid is None:
+        def num(o):
+            if o is None:
                 return None
-            if oid not in ren:
-                ren[oid] = len(ren)
+            if o not in ren:
+                ren[o] = len(ren)
+                order.append(o)
+            return ren[o]
+        slots = tuple(num(o) for o in self.mslots)
+        descs = []
+        i = 0
+        while i < len(order):
+            oid = order[i]
+            i += 1
             r = self.recs[oid]
             n = len(self.dcalls.get(oid, ())) if r.kind == "gc" else self.frees.get(oid, 0)
-            return (ren[oid], r.kind, r.dkind, r.cancelled, r.ran, r.released, r.k, n,
-                    desc(r.target) if r.target is not None else None)
-        return (tuple(desc(o) for o in self.mslots), self.collect_every)
+            held = r.kind == "gc" and not (r.released or r.cancelled or r.ran)
+            descs.append((r.kind, r.shape, r.cls, r.dkind, r.cancelled, r.ran, r.released, r.maybe, str(r.k), n,
+                          r.src, r.form, r.tied, len(self.fblog.get(oid, ())),
+                          num(r.target), num(r.link) if held else None))
+        return (slots, tuple(descs), self._status()[2], self.mode)
 
     def close(self):
         """End of history: drop everything, collect, then every counter must be exact."""
+        if self.outcome is not None:
+            _OUT[self.outcome] = _OUT.get(self.outcome, 0) + 1
         for i in range(NSLOT):
             self.slots[i] = None
             self.mslots[i] = None
+        _gc.disable()
         for _ in range(3):
             _gc.collect()
+        self._mark_collected()
         info = self._check(final=True)
         if info is None:
-            try:
-                self.ba.append(1)
-                self.ba.pop()
-            except BufferError:
-                info = {"kind": "export-lock", "op": ("close",), "exported_in_model": False, "resize_succeeded": False}
+            for src in SHARED_SRCS:
+                if src in self.shared and not self._probe(src):
+                    info = {"kind": "export-lock", "op": ("close",), "src": src, "exported_in_model": False,
+                            "resize_succeeded": False}
+                    break
+        if info is not None:
+            info["cfg"] = self._plain_cfg()
         # the Sys object itself must not keep wrappers alive through the closures
         return info
+
+
+def _tuplify(o):
+    return tuple(_tuplify(x) for x in o) if isinstance(o, (list, tuple)) else o
+
+
+def _fill(p, shape):
+    if shape in ("s", "u"):
+        p.x = SENT
+    elif shape == "v":
+        p.n = SENT
+        for j in range(3):
+            p.tail[j] = SENT + 1 + j
+    elif shape in ("a", "o"):
+        for j in range(3):
+            p[j] = SENT + j
+    elif shape == "i":
+        p[0] = SENT
+    elif shape == "sa":
+        p[0].x = SENT
+        p[1].x = SENT + 1
+
+
+def _intact(x, shape, alias):
+    if shape in ("s", "u"):
+        return x.x == SENT and (alias or x[0].x == SENT)
+    if shape == "v":
+        return x.n == SENT and [x.tail[j] for j in range(3)] == [SENT + 1, SENT + 2, SENT + 3]
+    if shape in ("a", "o"):
+        return [x[j] for j in range(3)] == [SENT, SENT + 1, SENT + 2]
+    if shape == "i":
+        return x[0] == SENT
+    if shape == "sa":
+        return x[0].x == SENT and x[1].x == SENT + 1
+    raise InfraError("unknown shape %r" % (shape,))
+
+
+_SRC_LOGS = {}         # id(source) -> its log; see _Src
+
+
+class _Src(object):
+    """A PEP 688 exporter that counts acquisitions and releases.  The counters are found through id(self) in a
+    module-level table, not through the instance or a per-instance class: when the instance is part of a cycle, its
+    __dict__ (and a class of its own) may be cleared before the from_buffer object releases the buffer."""
+
+    def __init__(self):
+        self.data = bytearray(b"0123456789ab")
+
+    def __buffer__(self, flags):
+        _SRC_LOGS[id(self)].append("get")
+        return memoryview(self.data)
+
+    def __release_buffer__(self, view):
+        _SRC_LOGS[id(self)].append("rel")
+
+
+def _make_src(log):
+    s = _Src()
+    _SRC_LOGS[id(s)] = log      # a later source at the same address replaces the entry
+    return s
+
+
+def _count_call(sysref, oid, x):
+    sysref.dcalls.setdefault(oid, []).append(1)
+
+
+class _Method(object):
+    w = None
+
+    def __init__(self, sysref, oid):
+        self.sysref = sysref
+        self.oid = oid
+
+    def destroy(self, x):
+        self.sysref.dcalls.setdefault(self.oid, []).append(1)
 
 
 class _Cell(object):
@@ -427,50 +994,173 @@ class _BA(bytearray):
 
 
 class _Obj(object):
+    h = None
+
     def __init__(self, name):
         self.name = name
 
 
-_FFI = [None]
+_FFIS = {}
 _RAW = None
+_UNRAISABLE = []       # unraisable errors other than the ones a 'raises' destructor produces on purpose
+_OUT = {}              # per worker: classification of the last operation of every closed history
+
+
+def _unraisable_hook(u):
+    if isinstance(u.exc_value, _Expected):
+        return
+    _UNRAISABLE.append("%s: %s (%s)" % (type(u.exc_value).__name__, u.exc_value, u.err_msg))
 
 
 def setup():
     global _RAW
+    if _FFIS:
+        return
     import cffi
+    import importlib.util
+    from .. import build
     ffi = cffi.FFI()
-    ffi.cdef("struct c21s { int x; long long pad[3]; }; void *malloc(size_t); void free(void *);")
-    _FFI[0] = ffi
+    ffi.cdef(CDEF)
+    _FFIS["inline"] = ffi
     _RAW = ffi.dlopen(None)
-    _gc.disable()          # collections happen only where a history says so
+    # the second front end: the _cffi_backend.FFI object of an out-of-line (ABI) module
+    gen = cffi.FFI()
+    gen.cdef(CDEF)
+    name = "_c21_ool_%d" % os.getpid()
+    gen.set_source(name, None)
+    path = os.path.join(build.scratch(), name + ".py")
+    stdout = sys.stdout
+    try:
+        sys.stdout = sys.stderr          # emit_python_code prints "generating ..."
+        gen.emit_python_code(path)
+    finally:
+        sys.stdout = stdout
+    spec = importlib.util.spec_from_file_location(name, path)
+    mod = importlib.util.module_from_spec(spec)
+    spec.loader.exec_module(mod)
+    _FFIS["ool"] = mod.ffi
+    for f in _FFIS.values():             # parse every type once, before the heap is frozen
+        for ct, _, _ in SHAPES.values():
+            f.typeof(ct)
+        for ct in ("void *", "char *", "intptr_t", "char[]", "int", "void(*)(void *)"):
+            f.typeof(ct)
+    sys.unraisablehook = _unraisable_hook
+    _gc.disable()          # collections happen only where a history says so (or, in mode 'auto', all the time)
+    _gc.collect()
+    _gc.freeze()           # what exists now is outside the experiment: a full collection then costs microseconds
+
+
+# ---- scheduling: one pool, every item explores one part of one configuration ------------------------------------
+
+def _work(item):
+    import mmap
+    cfg, depth, d0 = item
+    path = hist._journal_path(item)
+    with open(path, "wb") as f:
+        f.write(b"\0" * hist._JSIZE)
+    f = open(path, "r+b")
+    hist._journal = mmap.mmap(f.fileno(), hist._JSIZE)
+    _OUT.clear()
+    try:
+        st = hist.explore(Sys, cfg, depth, d0)
+        st.outcomes = dict(_OUT)
+        return st
+    finally:
+        hist._journal.close()
+        f.close()
+        hist._journal = None
+        _gc.disable()
+
+
+CHAIN = [["news"], ["gc", 0, "plain"], ["gc", 1, "plain"]]
+FRONTS = ("inline", "ool")
+MODES = ("none", "every", "auto")
+ALLOCATORS = ("raw", "owning", "nofree", "default")
+
+
+def _plans(quick):
+    """(alphabet, depth, d0, prebuilt, fronts, modes, allocators)"""
+    if quick:
+        return [
+            ("full", 3, 3, None, FRONTS, MODES, ("raw",)),
+            ("core", 4, 2, None, FRONTS, MODES, ("raw",)),
+            ("core", 3, 3, CHAIN, FRONTS, MODES, ("raw",)),
+            ("alloc", 3, 3, None, FRONTS, ("none", "every"), ALLOCATORS),
+            ("dtor", 3, 3, None, FRONTS, MODES, ("raw",)),
+            ("buf", 3, 3, None, FRONTS, MODES, ("raw",)),
+            ("handle", 3, 3, None, FRONTS, MODES, ("raw",)),
+        ]
+    return [
+        ("full", 4, 3, None, FRONTS, MODES, ("raw",)),
+        ("core", 5, 3, None, FRONTS, MODES, ("raw",)),
+        ("full", 3, 3, CHAIN, FRONTS, MODES, ("raw",)),
+        ("core", 4, 3, CHAIN, FRONTS, MODES, ("raw",)),
+        ("alloc", 4, 3, None, FRONTS, MODES, ALLOCATORS),
+        ("dtor", 4, 3, None, FRONTS, MODES, ("raw", "owning")),
+        ("buf", 4, 3, None, FRONTS, MODES, ("raw",)),
+        ("handle", 4, 3, None, FRONTS, MODES, ("raw",)),
+    ]
 
 
 def run(ctx):
     setup()
-    chain = [["news"], ["gc", 0, "plain"], ["gc", 1, "plain"]]
-    if ctx.quick:
-        plan = [("full", 3, 3, None), ("core", 4, 2, None), ("core", 3, 3, chain)]
-    else:
-        plan = [("full", 4, 3, None), ("core", 5, 3, None), ("full", 3, 3, chain), ("core", 4, 3, chain)]
+    plans = _plans(ctx.quick)
+    nparts = 4 if ctx.quick else 16
+    items = []
+    for pi, (alpha, depth, d0, pre, fronts, modes, allocators) in enumerate(plans):
+        for front in fronts:
+            for mode in modes:
+                for allocator in allocators:
+                    for part in range(nparts):
+                        cfg = {"alpha": alpha, "front": front, "mode": mode, "allocator": allocator,
+                               "part": (part, nparts), "plan": pi}
+                        if pre:
+                            # the same search from a state that already holds a chain x <- gc(x) <- gc(gc(x))
+                            cfg["prebuilt"] = pre
+                        items.append((cfg, depth, d0))
+    items.sort(key=lambda it: -it[1])          # big subtrees first (a stable sort: the order is deterministic)
     total = hist.Stats()
-    crashes_all = []
-    for alpha, depth, d0, pre in plan:
-        cfgs = [{"collect_every": False, "alpha": alpha}, {"collect_every": True, "alpha": alpha}]
-        if pre:
-            # the same search from a state that already holds a chain x <- gc(x) <- gc(gc(x))
-            for c in cfgs:
-                c["prebuilt"] = pre
-        st, crashes = hist.run_parallel(Sys, cfgs, depth, d0, split=1)
-        total.merge(st)
-        crashes_all.extend(crashes)
-        ctx.count("transitions_%s_depth%d%s" % (alpha, depth, "_from_chain" if pre else ""), st.transitions)
-    for (item, cr, last) in crashes_all:
-        ctx.violation({"kind": "crash"}, {"cfg": item[0], "prefix": item[1], "last_history": last, "how": cr.describe()})
+    outcomes = {}
+    per_plan = {}
+    per_axis = {}
+    crashes = []
+    for item, r in pool.pmap(_work, [[it] for it in items], contain_crashes=True, item_timeout=3600):
+        if isinstance(r, pool.WorkerError):
+            raise InfraError(r.tb)
+        if isinstance(r, pool.Crash):
+            crashes.append((item, r, hist._read_journal(item)))
+            continue
+        total.merge(r)
+        for k, v in r.outcomes.items():
+            outcomes[k] = outcomes.get(k, 0) + v
+        cfg = item[0]
+        per_plan[cfg["plan"]] = per_plan.get(cfg["plan"], 0) + r.transitions
+        for ax in ("front", "mode", "allocator"):
+            key = "transitions_%s_%s" % (ax, cfg[ax])
+            per_axis[key] = per_axis.get(key, 0) + r.transitions
+    for pi, (alpha, depth, d0, pre, fronts, modes, allocators) in enumerate(plans):
+        ctx.count("transitions_%s_depth%d%s" % (alpha, depth, "_from_chain" if pre else ""), per_plan.get(pi, 0))
+    for k, v in sorted(per_axis.items()):
+        ctx.count(k, v)
+    for (item, cr, last) in crashes:
+        cfg = {k: v for k, v in item[0].items() if k not in ("part", "depth", "plan")}
+        ctx.violation({"kind": "crash", "alpha": cfg["alpha"]},
+                      {"cfg": cfg, "part": item[0]["part"], "last_history": last, "how": cr.describe()})
     for h, info in total.violations:
-        ctx.violation({"kind": info.get("kind"), "dkind": info.get("dkind"), "okind": info.get("okind")},
-                      {"history": h, "info": info})
+        cfg = info.get("cfg") or {}
+        sig = {"kind": info.get("kind"), "dkind": info.get("dkind"), "okind": info.get("okind")}
+        for k in ("hkind", "form", "src", "allocator"):
+            if info.get(k) is not None:
+                sig[k] = info[k]
+        if cfg.get("alpha") not in ("full", "core"):
+            sig["alpha"] = cfg.get("alpha")
+        ctx.violation(sig, {"history": h, "info": info, "cfg": cfg})
     for k, v in sorted(total.op_hist.items()):
         ctx.count("op_" + str(k), v)
+    if "bad" in total.op_hist:
+        ctx.count("failed_allocation_probes(4 initializers or 4x2 alloc functions per op_bad)", total.op_hist["bad"] * 6)
+    for k, v in sorted(outcomes.items()):
+        ctx.count("states_after_" + k, v)
     for smp in total.samples:
         ctx.sample({"history": smp})
     if not total.samples:
@@ -479,40 +1169,78 @@ def run(ctx):
         "states": total.states, "transitions": total.transitions,
         "traces_validated_against_impl": total.transitions,
         "max_depth": total.max_depth,
-        "unmerged_depth_d0": {"full alphabet": plan[0][2], "core alphabet": plan[1][2]},
+        "unmerged_depth_d0": {p[0] + ("_from_chain" if p[3] else ""): p[2] for p in plans},
         "initial_states": ["empty", "chain x <- gc(x) <- gc(gc(x))"],
         "merged_states_skipped": total.merged,
         "histories_closed": total.histories_closed,
         "evaluations": total.transitions, "distinct_nontrivial": total.states,
         "rule": "a state is an operation history (merged by model key beyond d0); every transition executes the real "
-                "operation on fresh real objects and the counting model in lock-step",
-        "plan": [{"alphabet": a, "depth": d, "d0": z, "from_chain": bool(pre)} for a, d, z, pre in plan],
+                "operation on fresh real objects and the counting model in lock-step.  Families: full/core (the "
+                "original alphabet), alloc (allocator kinds x allocation shapes, failing initializers and failing "
+                "alloc(), release/with/gc(None) on every object), dtor (raising / cdata-callback / bound-method / "
+                "partial destructors, raising with-bodies), buf (from_buffer forms x sources, gc and ffi.buffer over "
+                "them, source cycles, PEP 688 release counter), handle (private / cyclic / None / cdata targets, gc "
+                "over handles); each on the front ends inline and out-of-line, in the collection modes none / every "
+                "step / automatic, with gc.collect(0|1) steps",
+        "plan": [{"alphabet": a, "depth": d, "d0": z, "from_chain": bool(pre), "fronts": list(fr), "modes": list(mo),
+                  "allocators": list(al)} for a, d, z, pre, fr, mo, al in plans],
         "exhaustive": True,
     }
-    return ctx.finish(cov, ["CPython refcounting + explicit gc.collect() only (automatic GC disabled during the search)"])
+    return ctx.finish(cov, ["CPython refcounting; collections happen where a history says so (modes none/every) or at "
+                            "any allocation (mode auto, threshold 1); objects that exist before the search starts are "
+                            "gc.freeze()-d"])
+
+
+def _run_history(cfg, ops, verbose=True):
+    s = Sys(cfg)
+    bad = None
+    for op in ops:
+        if op not in s.enabled():
+            if verbose:
+                print("op", op, "not enabled in this configuration")
+            return None
+        bad = s.apply(op)
+        if verbose:
+            print(op, "->", bad)
+        if bad:
+            return bad
+    bad = s.close()
+    if verbose:
+        print("<close> ->", bad)
+    return bad
 
 
 def replay(detail):
     setup()
+    cfg = detail.get("cfg") or (detail.get("info") or {}).get("cfg")
     h = detail.get("history")
+    if h is None and detail.get("last_history") and cfg:
+        # a crash: re-run the journalled history in a child process
+        import ast
+        ops = [_tuplify(o) for o in ast.literal_eval(detail["last_history"])]
+        cfg = {k: v for k, v in cfg.items() if k not in ("part", "depth", "plan")}
+        print("cfg", cfg, "history", ops)
+        sys.stdout.flush()
+        pid = os.fork()
+        if pid == 0:
+            try:
+                _run_history(cfg, ops)
+            finally:
+                sys.stdout.flush()
+                os._exit(0)
+        _, status = os.waitpid(pid, 0)
+        print("child status", status)
+        return 1 if os.WIFSIGNALED(status) or os.WEXITSTATUS(status) != 0 else 0
     if h is None:
         print(detail)
         return 1
-    ops = [tuple(o) for o in h if tuple(o) != ("<close>",)]
-    for collect_every in (False, True):
-        s = Sys({"collect_every": collect_every, "alpha": "full"})
-        bad = None
-        for op in ops:
-            if op not in s.enabled():
-                print("op", op, "not enabled in this mode")
-                break
-            bad = s.apply(op)
-            print(op, "->", bad)
-            if bad:
-                break
-        if not bad:
-            bad = s.close()
-            print("<close> ->", bad)
-        if bad:
+    ops = [_tuplify(o) for o in h if _tuplify(o) != ("<close>",)]
+    if cfg:
+        cfgs = [{k: v for k, v in cfg.items() if k not in ("part", "depth", "plan")}]
+    else:
+        cfgs = [{"collect_every": False, "alpha": "full"}, {"collect_every": True, "alpha": "full"}]
+    for c in cfgs:
+        print("cfg", c)
+        if _run_history(c, ops):
             return 1
     return 0
